@@ -10,7 +10,11 @@
 (*   N1  every file name of a database is computed from the last component  *)
 (*       of its path by string concatenation alone:                         *)
 (*         main = stem suf      wal/shm/jrn = main "-wal" / "-shm" / "-journal"*)
-(*         bak  = stem "_backup" suf       tmp = stem "_backup" ".tmp"      *)
+(*         bak  = stem "_backup" suf       tmp = bak ".tmp"                 *)
+(*       (PDev "TempBySuffix": tmp = stem "_backup" ".tmp", the suffix of   *)
+(*       the backup name REPLACED - for a database called x.tmp that is the *)
+(*       backup name itself, N2 fails and the unfinished copy is written    *)
+(*       under the name create_db restores; repaired in /repo)              *)
 (*       (stem suf = the name split at its last inner "."), all of them in  *)
 (*       the directory of the path; no character of the name has a meaning  *)
 (*   N2  the six names of one database are pairwise different               *)
@@ -68,7 +72,9 @@ WalName(p) == Name(p) \o <<"-", "w", "a", "l">>
 ShmName(p) == Name(p) \o <<"-", "s", "h", "m">>
 JrnName(p) == Name(p) \o <<"-", "j", "o", "u", "r", "n", "a", "l">>
 BackupName(p) == p.stem \o <<"_", "b", "a", "c", "k", "u", "p">> \o p.suf
-TempName(p) == p.stem \o <<"_", "b", "a", "c", "k", "u", "p">> \o <<".", "t", "m", "p">>
+TempName(p) == IF "TempBySuffix" \in PDev
+               THEN p.stem \o <<"_", "b", "a", "c", "k", "u", "p">> \o <<".", "t", "m", "p">>
+               ELSE BackupName(p) \o <<".", "t", "m", "p">>
 SideFiles(p) == {WalName(p), ShmName(p)}
 FileSet(p) == {Name(p), WalName(p), ShmName(p), JrnName(p), BackupName(p), TempName(p)}
 Db(stem, suf) == [stem |-> stem, suf |-> suf]
@@ -118,7 +124,11 @@ Universe ==
    relative |-> Shape(<<>>, <<"r", "e", "l", "[", "a", "b", "]">>, DB, TRUE,
                       {Db(<<"r", "e", "l", "a">>, DB)},
                       "a relative path (bare file name, the process runs in the directory), [..] in the name"),
-   \* the quick tier: the dimensions folded into three shapes
+   tmpsuf   |-> Shape(<<>>, <<"p", "a", "g", "e", "s">>, <<".", "t", "m", "p">>, FALSE,
+                      {Db(<<"p", "a", "g", "e", "s">>, DB), Db(<<"p", "a", "g", "e", "s", "_", "b", "a", "c", "k", "u", "p">>, <<".", "t", "m", "p">>),
+                       Db(<<"p", "a", "g", "e", "s", ".", "t", "m", "p">>, <<".", "t", "m", "p">>)},
+                      "the suffix .tmp, which the library itself uses for the unfinished copy of a backup"),
+   \* the quick tier: the dimensions folded into four shapes
    q_under  |-> Shape(<<>>, <<"w", "i", "k", "t", "[", "e", "n", "]">>, DB, FALSE,
                       {Db(<<"w", "i", "k", "t", "e">>, DB),
                        Db(<<"w", "i", "k", "t", "[", "e", "n", "]", ".", "d", "b", "-", "o", "l", "d">>, <<>>)},
@@ -130,13 +140,18 @@ Universe ==
                       "a relative path (bare file name); a leading -, a blank, a * and a second dot in the file name"),
    q_dir    |-> Shape(<<"d", "[", "1", "]", " ", "x", "*">>, <<"w", "ö", "r", "t", "e", "r">>, <<>>, FALSE,
                       {Db(<<"w", "ö", "r", "t", "e", "r">>, DB), Db(<<"w", "ö", "r", "t", "e", "r", "-", "o", "l", "d">>, <<>>)},
-                      "below a directory with [..], blank and *; no suffix; a letter outside ASCII")]
+                      "below a directory with [..], blank and *; no suffix; a letter outside ASCII"),
+   q_tmp    |-> Shape(<<>>, <<"w", ".", "v", "2">>, <<".", "t", "m", "p">>, FALSE,
+                      {Db(<<"w", ".", "v", "2">>, DB), Db(<<"w", ".", "v", "2", "_", "b", "a", "c", "k", "u", "p">>, <<".", "t", "m", "p">>)},
+                      "the suffix .tmp (the one the library uses for the unfinished copy of a backup) after a second dot")]
 
-IdsQuick == {"q_under", "q_over", "q_dir"}
-IdsAll == {"plain", "class", "negclass", "star", "dash", "twodots", "nosuffix", "unicode", "dirclass", "relative"}
+IdsQuick == {"q_under", "q_over", "q_dir", "q_tmp"}
+IdsTmp == {"q_tmp", "tmpsuf"}
+IdsAll == {"plain", "class", "negclass", "star", "dash", "twodots", "nosuffix", "unicode", "dirclass", "relative", "tmpsuf"}
 PDevNone == {}
 PDevRestoreGlob == {"RestoreByGlob"}
 PDevCloseGlob == {"CloseByGlob"}
+PDevTempBySuffix == {"TempBySuffix"}
 
 S(id) == Universe[id]
 \* N3: a sibling whose file set overlaps the one of the database (or of another sibling) by the naming
